@@ -30,6 +30,11 @@ def _helper_of(P, f, call):
     """the FuncInfo a call resolves to when it is a private helper of f's class or module, else None"""
     fn = call.func
     mod = f.module
+    if isinstance(fn, ast.Name):
+        # a closure defined in the body of f itself (free variables keep their meaning when the body is spliced back in)
+        for st in f.node.body:
+            if isinstance(st, ast.FunctionDef) and st.name == fn.id and not any(isinstance(x, (ast.Yield, ast.YieldFrom, ast.Nonlocal)) for x in ast.walk(st)):
+                return FuncInfo(st.name, "%s.<locals>.%s" % (f.qualname, st.name), mod, None, st, "function"), None
     if isinstance(fn, ast.Name) and _is_private(fn.id) and fn.id in mod.functions:
         return mod.functions[fn.id], None
     if isinstance(fn, ast.Name) and _is_private(fn.id) and fn.id in mod.imports:
